@@ -41,6 +41,8 @@ pub struct GenOpts {
     pub p_mid_sets: f64,
     /// Probability of a mid-size graph (13..160 nodes).
     pub p_mid_graphs: f64,
+    /// Probability that the pre-state fails reads of one or two particular keys (state errors inside node programs).
+    pub p_poison: f64,
 }
 
 impl Default for GenOpts {
@@ -60,6 +62,7 @@ impl Default for GenOpts {
             p_dup_solution: 0.0,
             p_mid_sets: 0.004,
             p_mid_graphs: 0.004,
+            p_poison: 0.04,
         }
     }
 }
@@ -571,6 +574,13 @@ pub fn gen_scenario(r: &mut Rng, o: &GenOpts) -> Scenario {
             }
         }
     }
+    // fault injection: reads whose range covers one of these keys fail with a state error
+    let mut poison = vec![];
+    if r.chance(o.p_poison) {
+        for _ in 0..1 + r.below(2) {
+            poison.push((r.pick(&contracts_pool).clone(), gen_read_key(r)));
+        }
+    }
     // solutions
     // mostly small sets; sometimes mid-size (17..=40: several rayon jobs / batches of solutions) or the maximum
     let ns = if r.chance(0.004) {
@@ -623,7 +633,7 @@ pub fn gen_scenario(r: &mut Rng, o: &GenOpts) -> Scenario {
         contracts,
         solutions,
         sol_pred,
-        pre: ViewSpec { entries: pre, script: Script::Range },
+        pre: ViewSpec { entries: pre, script: Script::Range, poison },
         collect_all: r.chance(0.5),
     }
 }
